@@ -118,6 +118,7 @@ type Exec struct {
 	PathEnds     map[string]int
 	Samples      []map[string]uint64
 	NontrivPaths int
+	jsonDepth    int
 }
 
 // FuncCalls lists every function whose SSA body was executed, with the number of activations.
